@@ -154,6 +154,30 @@ def run(cx):
                     verts.add(ev['k'][1])
         cx.ob('EXPR', 'near_mesh:face-normal', n == 6 and okn and verts == {0, 1, 2},
               'each of the 6 near_check calls passes vertex k of face i together with the normal of that same face i', found=f'{n} calls, vertices {sorted(verts)}, coherent={okn}')
+        # all-vertices mode is the conjunction over the face's THREE vertices, any-vertex mode the disjunction over the same three
+        okm = len(cl) == 1
+        detail = []
+        for c in cl:
+            AP = '(field cap:all_points (param 1))'
+            for pol in (True, False):
+                calls = [s for s in c.calls(f'{NC}::near_check') if cx.guarded(c, s.bb, AP, pol) is not None]
+                ks = []
+                chain_ok = True
+                for s in calls:
+                    ev = match('(index (index (call *Mesh::faces _) $i) $k)', cx.arg(s, 1))
+                    ks.append(ev['k'][1] if ev else None)
+                    # every other call of this mode that dominates s must have come out `pol` (true keeps an && chain going, false an || chain)
+                    for t in calls:
+                        if t is not s and c.dominates(t.bb, s.bb):
+                            prev = cx.call(t)
+                            if not any(p == pol and a[0] == 'call' and a[1].endswith('near_check') and a[3:] == prev[3:] for a, p in cx.guards(c, s.bb)):
+                                chain_ok = False
+                consts = [d for s_, d in cx.rets(c) if d[0] == 'const' and isinstance(d[1], bool) and cx.guarded(c, s_.bb, AP, pol) is not None]
+                okm = okm and sorted(k for k in ks if k is not None) == [0, 1, 2] and len(ks) == 3 and chain_ok and all(d[1] == (not pol) for d in consts)
+                detail.append(f'{"all" if pol else "any"}: vertices {ks} chain={chain_ok} early={[d[1] for d in consts]}')
+        cx.ob('EXPR', 'near_mesh:mode', okm,
+              'with all_points the face passes when vertex 0 AND 1 AND 2 are near (early exit false), otherwise when vertex 0 OR 1 OR 2 is near (early exit true): each mode examines each of the three vertices once',
+              where=b.file, found='; '.join(detail))
 
     # ---------------------------------------------------------------- create_from_indices
     b = cx.fn('geom3::mesh::Mesh::create_from_indices')
